@@ -37,6 +37,7 @@ THEOREMS = [
     "TornadoModel.C04.gz_run_beyond_refused",
     "TornadoModel.C04.gz_run_accepted_whole",
     "TornadoModel.C04.run_cl_within_delivered",
+    "TornadoModel.C04.run_cl_within_delivered_close",
     "TornadoModel.C04.run_chunk_within_delivered",
     "TornadoModel.C04.gz_beyond_conn_closed",
     "TornadoModel.C04.raw_body_limit_exact",
@@ -68,7 +69,7 @@ RULE = ("server options as the application passes them: max_body_size 0 / 1..409
         "block within 2 bytes of its limit or beyond it; distinct by canonical JSON")
 EXHAUSTIVE = {"quick": False, "thorough": False}
 CLAUSE_CAVEATS = [
-    "the run-level acceptance theorems (run_cl_within_delivered, run_chunk_within_delivered) need the message / chunk to be completely contained in the bytes that follow the reachable state, and run_cl_within_delivered is stated for a persistent connection and a non-empty Content-Length body; empty bodies, non-persistent requests and bodies still incomplete at the end of the input are carried by the one-step lemmas *_at_limit_ok and the tie against Spec.readAll",
+    "the run-level acceptance theorems (run_cl_within_delivered, run_chunk_within_delivered) need the message / chunk to be completely contained in the bytes that follow the reachable state, and run_cl_within_delivered(_close) are stated for a non-empty Content-Length body; empty bodies, non-persistent chunked requests and bodies still incomplete at the end of the input are carried by the one-step lemmas *_at_limit_ok and the tie against Spec.readAll",
     "gzip: there is no single composed machine. The wrapper (gzRun) and the connection (run) are two machines; their composition is the glue gzRefusal (the wrapper's HTTPInputError = the connection's reject400) plus 'the wrapper's limit is effLimit of the request's position' -- both are compared with the implementation on every gzip case (refusal events, the limit read at each decompressor answer), and gz_beyond_conn_closed is stated over that glue, for an arbitrary connection state rather than a reachable one; gzRun takes ONE limit for the whole body (the code re-reads connection._max_body_size per answer; the harness delegate changes it only in headers_received); _GzipMessageDelegate.finish() (flush / truncated-stream errors) is not modelled",
     "limits_monotone requires that the run under the smaller limits never closed the connection, so it says nothing for a stream ending in a non-persistent (Connection: close / HTTP/1.0) request; those are covered by the tie only (the trace alone cannot tell a size refusal after a served request from a non-persistent finish, so a trace-level hypothesis does not exist)",
 ]
@@ -79,7 +80,7 @@ CLAUSES = {
     "gzip body decompressing beyond the limit refused": "gz_run_beyond_refused (total decompressor output over the consumed answers > limit, at any call / loop iteration => HTTPInputError, delivered <= limit), gz_run_oversize_refused, gz_run_size_gt_rejected (delegate level, all call sequences and decompressor behaviours), gz_oversize_rejected (one iteration); 400 + close: gz_beyond_conn_closed over the glue gzRefusal (compared with the implementation on every refusing gzip case)",
     "application is handed at most max_body_size body bytes": "delivered_le_limit, delivered_le_limit_eof, withinLimits_run (all streams, segmentations, overrides), gz_delivered_le_limit (all decompressor behaviours)",
     "limit values (configurations): the configured max_body_size is the limit for every value incl. 0, None falls back to max_buffer_size": "raw_body_limit_exact, raw_body_limit_absent, raw_delivered_le_configured, raw_zero_delivers_nothing, raw_zero_cl_rejected (Raw.cfg models `is not None` / `or 65536` / `or 104857600`)",
-    "requests within the limits are unaffected": "run_cl_within_delivered (run level: header block <= max_header_size and Content-Length <= limit, equality included, is delivered whole and finished), gz_run_accepted_whole (a gzip body not refused is handed over completely), limits_monotone, limits_monotone_state (raising the limits does not change a run that never closed); one-step exactness by *_at_limit_ok; checked on every case against Spec.readAll",
+    "requests within the limits are unaffected": "run_cl_within_delivered, run_cl_within_delivered_close (run level: header block <= max_header_size and Content-Length <= limit, equality included, is delivered whole and finished), gz_run_accepted_whole (a gzip body not refused is handed over completely), limits_monotone, limits_monotone_state (raising the limits does not change a run that never closed); one-step exactness by *_at_limit_ok; checked on every case against Spec.readAll",
 }
 PARALLEL = True
 CASE_TIMEOUT = 120
